@@ -28,7 +28,7 @@ pub fn decode(s: &mut Src) -> Case {
     let mut cfg = gen_cfg(s);
     cfg.name = gen_string(s, 64);
     let profile = gen::gen_profile(s, cfg.nla);
-    Case { cfg, profile, chunk: 0, stop_after: 0 }
+    Case { cfg, profile, chunk: 0, stop_after: 0, warmup: false }
 }
 
 /// the X.224 connection request of x224::Client::connect for every offered mask / mode, parsed strictly
